@@ -890,7 +890,9 @@ func (g *gen) applyCall(val ssa.Value, c *ssa.CallCommon, full, short string, or
 			}
 		}
 		for i, rq := range ct.Requires {
-			g.oblige("requires", fmt.Sprintf("call#%d@%s.requires[%d]", ord, short, i+1), rq.Text, g.specBool(e, rq), pos)
+			if t, ok := g.foreignClause(e, ct, rq); ok {
+				g.oblige("requires", fmt.Sprintf("call#%d@%s.requires[%d]", ord, short, i+1), rq.Text, t, pos)
+			}
 		}
 	} else if g.unit.Strict {
 		g.unmodelled("call to uncontracted "+full, pos)
@@ -1002,7 +1004,9 @@ func (g *gen) applyCall(val ssa.Value, c *ssa.CallCommon, full, short string, or
 			if strings.Contains(en.Text, "res(") {
 				continue // refers to calls inside the callee: verified there, not visible to callers
 			}
-			g.assume(implies(g.curReach, g.specBool(e, en)))
+			if t, ok := g.foreignClause(e, ct, en); ok {
+				g.assume(implies(g.curReach, t))
+			}
 		}
 		if ct.Fresh && len(res) > 0 && res[0].Sort == sSlice {
 			g.assume(implies(g.curReach, sx(">=", sx("s.reg", res[0].S), pre["nalloc"])))
@@ -1315,4 +1319,24 @@ func (g *gen) doTypeAssert(x *ssa.TypeAssert) {
 		g.oblige("nopanic", g.npName("typeassert"), "type assertion succeeds", ok, x.Pos())
 	}
 	g.vals[x] = T{S: g.define("ta", ts, val), Sort: ts, Signed: tsg, GoT: x.AssertedType}
+}
+
+// foreignClause translates a clause of a callee's contract in the caller.  A clause of a contract
+// from another unit that speaks about ghost state the caller's unit does not have cannot be expressed
+// here and is skipped (it was discharged where the callee was verified).
+func (g *gen) foreignClause(e *env, ct *Contract, c *Clause) (t string, ok bool) {
+	if ct.Unit == g.unit {
+		return g.specBool(e, c), true
+	}
+	defer func() {
+		if r := recover(); r != nil {
+			if se, isSE := r.(specErr); isSE && strings.Contains(se.msg, "unknown identifier") {
+				g.warn("clause %q of %s not expressible in unit %s: skipped", c.Text, ct.FullKey, g.unit.Name)
+				t, ok = "", false
+				return
+			}
+			panic(r)
+		}
+	}()
+	return g.specBool(e, c), true
 }
